@@ -55,6 +55,23 @@ type Gateway struct {
 var upgrader = websocket.Upgrader{}
 var c = cache.New(5*time.Minute, 10*time.Minute)
 
+func init() {
+	// a legacy tunnel whose RDG_IN_DATA channel never came is forgotten after a while. Its
+	// RDG_OUT_DATA connection was hijacked from the http server and nobody else closes it
+	c.OnEvicted(func(_ string, v interface{}) {
+		t, ok := v.(*Tunnel)
+		if !ok {
+			return
+		}
+		t.attachMu.Lock()
+		orphaned := t.transportIn == nil && t.transportOut != nil
+		t.attachMu.Unlock()
+		if orphaned {
+			t.transportOut.Close()
+		}
+	})
+}
+
 func (g *Gateway) HandleGatewayProtocol(w http.ResponseWriter, r *http.Request) {
 	connectionCache.Set(float64(c.ItemCount()))
 
